@@ -1,6 +1,7 @@
 """Fail-closed translator for the graph-building functions of reservoirpy/ops.py -> Gallina (tie T of C03, second unit).
 
-Targets (FUNCS, in emission order): concat_multi_inputs, _link_1to1, merge.   (link / Model.__init__ / update_graph: tie H only.)
+Targets (FUNCS, in emission order): concat_multi_inputs, _link_1to1, merge; then link (v3: class LinkFn below, whose docstring lists
+its fragment; _check_all_nodes pinned by its exact text).   (Model.__init__ / update_graph: tie H only.)
 It REUSES tools/vlib/py2coq_graph.py (kinds, ownership tracking, defaultdict reads with their insert side effect, loops,
 set -> sequence sites) by subclassing its `Fn` / `Translator`; py2coq_graph.py is not modified.  The callee
 `find_parents_and_children` is NOT re-translated here: ops.py must import it from .utils.graphflow (checked), its signature
@@ -51,7 +52,7 @@ import re
 from vlib import py2coq_graph as g
 from vlib.py2coq_graph import Reject, NODE, EDGE, NAT, BOOL, DD, L, C, SET, T, where
 
-VERSION = "py2coq_ops 2"
+VERSION = "py2coq_ops 3"
 SOURCE = "reservoirpy/ops.py"
 DEAD = ("deaddict",)
 DIM = ("dim",)
@@ -63,7 +64,7 @@ FUNCS = [
     ("merge", [("model", NODE), ("models", L(OPND)), ("inplace", BOOL), ("name", NAME)]),
 ]
 IMPORTED = {"find_parents_and_children": ".utils.graphflow", "Concat": ".nodes.concat", "Model": ".model", "FrozenModel": ".model",
-            "product": "itertools", "_Node": "._base"}
+            "product": "itertools", "_Node": "._base", "Sequence": "typing", "Iterable": "typing"}
 ATTRS = {"nodes": ("attr_nodes", L(NODE)), "edges": ("attr_edges", L(EDGE)), "input_nodes": ("attr_input_nodes", L(NODE)),
          "output_nodes": ("attr_output_nodes", L(NODE)), "is_initialized": ("is_initialized", BOOL),
          "output_dim": ("output_dim", DIM), "input_dim": ("input_dim", DIM)}
@@ -487,6 +488,34 @@ class OTranslator(g.Translator):
             if name in bound:
                 raise Reject("module level: builtin %r is rebound" % name)
 
+    def need_check_all_nodes(self):
+        fns = [n for n in self.tree.body if isinstance(n, ast.FunctionDef) and n.name == "_check_all_nodes"]
+        if len(fns) != 1 or ast.get_source_segment(self.src, fns[0]) != CHECK_ALL_NODES_TEXT:
+            raise Reject("function _check_all_nodes: its text differs from the pinned one")
+        self.check_all_nodes_seg = CHECK_ALL_NODES_TEXT
+
+    def link_function(self):
+        fns = [n for n in self.tree.body if isinstance(n, ast.FunctionDef) and n.name == "link"]
+        if len(fns) != 1:
+            raise Reject("function link: %d definitions found" % len(fns))
+        fd = fns[0]
+        if fd.decorator_list or ast.unparse(fd.args) != LINK_SIG:
+            raise Reject("function link: signature is `%s`, expected `%s`" % (ast.unparse(fd.args), LINK_SIG))
+        if len([n for n in ast.walk(fd) if isinstance(n, ast.Name) and n.id == "name"]) != 1:
+            raise Reject("function link: the parameter `name` must occur exactly once (Model(..., name=name))")
+        body = list(fd.body)
+        if body and isinstance(body[0], ast.Expr) and isinstance(body[0].value, ast.Constant) and isinstance(body[0].value.value, str):
+            body = body[1:]
+        self.check_all_nodes_seg = None
+        f = LinkFn(self, fd)
+        text = f.block(body, {"node1": OPND, "node2": OPND, "name": NAME}, True, None)
+        if self.check_all_nodes_seg is None:
+            raise Reject("function link: no call of _check_all_nodes")
+        self.done["link"] = {"params": [("node1", OPND), ("node2", OPND), ("name", NAME)], "ret": MRES, "ret_fresh": [True],
+                             "monadic": True, "fuel": False}
+        text = CHECK_ALL_NODES_COQ + "\n\n(* %s :: link   may raise: py4 _ *)\nDefinition link (node1 : operand) (node2 : operand) (name : unit) :=\n%s." % (SOURCE, text)
+        return text, self.check_all_nodes_seg + "\n" + ast.get_source_segment(self.src, fd)
+
     def function(self, name, params):
         fns = [n for n in self.tree.body if isinstance(n, ast.FunctionDef) and n.name == name]
         if len(fns) != 1:
@@ -544,6 +573,338 @@ class OTranslator(g.Translator):
         return text, seg
 
 
+# ---------------------------------------------------------------------------------------------------- link (v3)
+LINK_SIG = "node1: Union[_Node, Sequence[_Node]], node2: Union[_Node, Sequence[_Node]], name: str=None"
+CHECK_ALL_NODES_TEXT = """def _check_all_nodes(*nodes):
+    msg = "Impossible to link nodes: object {} is neither a Node nor a Model."
+    for nn in nodes:
+        if isinstance(nn, Iterable):
+            for n in nn:
+                if not isinstance(n, _Node):
+                    raise TypeError(msg.format(n))
+        else:
+            if not isinstance(nn, _Node):
+                raise TypeError(msg.format(nn))"""
+CHECK_ALL_NODES_COQ = """(* reservoirpy/ops.py :: _check_all_nodes   PINNED by its exact source text (an operand that is Iterable is [OSeq]) *)
+Definition check_all_nodes (nodes : list operand) : py4 unit :=
+py4_for nodes (fun _ nn => match nn with
+| OSeq nn => py4_for nn (fun _ n => if (negb (is_node n)) then Exc4 TypeError else Val4 tt) tt
+| ONode nn => if (negb (is_node nn)) then Exc4 TypeError else Val4 tt
+end) tt."""
+ELIST = ("elist",)
+LINK_RENAME = {"left", "right"}
+
+
+class LinkFn:
+    """`link` of ops.py: its own small statement walker (always over py4).  Accepted, everything else REJECTED:
+      parameters node1 / node2 : `operand` (an object, or a Sequence of objects = OSeq; str / other Sequences are out of scope)
+      `_check_all_nodes(a, b)`                      `check_all_nodes [a; b]` (callee pinned by its exact text, see CHECK_ALL_NODES_TEXT)
+      `if [not] isinstance(p, Sequence): A else: B` p an operand: `match p with OSeq p => A | ONode p => B end`; inside A p is a list
+                                                    of objects, inside B an object; A / B only update variables; a variable (p
+                                                    itself included: `p = [p]`) must have the same kind after both branches
+      `v = []`                                      an ERASED list (list unit): only `v.append(x)`, `v += [<x.name | x> for x in l if c]`,
+                                                    `len(v)` and its mention in an exception message are accepted on it
+      `v = set()`, `v |= set(l)`                    as in merge;  `if c: A [else: B]` over pure updates;  `len(v) > 0`
+      `if c: raise TypeError(<str / f-string of names>)`   `if c then Exc4 TypeError else <rest>`
+      `for x in l:` (l a list of objects, nested allowed)   py4_for, state = the variables assigned in the body
+      `a, b = _link_1to1(x, y)`                     `py4_bind (py4_lift (_link_1to1 x y)) (fun '(a, b) => ..)`: the callee translated above
+                                                    over `py` (no fuel: checked), lifted into py4
+      `return Model(nodes=list(s), edges=list(t), name=name)`   `Val4 (MNew (ord_n k s) (ord_e k t))`"""
+
+    def __init__(self, tr, fd):
+        self.tr, self.fd = tr, fd
+        names = {n.id for n in ast.walk(fd) if isinstance(n, ast.Name)} | {a.arg for a in fd.args.args}
+        self.ren = {x for x in names if x in LINK_RENAME}
+        for x in self.ren:
+            if x + "_" in names:
+                raise Reject("function link: variable name %r cannot be renamed safely" % x)
+
+    def rn(self, s, n):
+        if s in self.ren:
+            return s + "_"
+        if s in RESERVED2 or s.startswith("ord_") or s in self.tr.done or s in ("check_all_nodes", "py4_lift", "link"):
+            raise Reject("%s: variable name %r clashes with the generated vocabulary" % (where(n), s))
+        return s
+
+    def pat(self, vs):
+        return self.rn(vs[0], self.fd) if len(vs) == 1 else "'(" + ", ".join(self.rn(v, self.fd) for v in vs) + ")"
+
+    def tup(self, vs):
+        return self.rn(vs[0], self.fd) if len(vs) == 1 else "(" + ", ".join(self.rn(v, self.fd) for v in vs) + ")"
+
+    def assigned(self, stmts):
+        out = []
+        for st in stmts:
+            comp = {id(x) for c in ast.walk(st) if isinstance(c, ast.comprehension) for x in ast.walk(c.target)}
+            for n in ast.walk(st):
+                v = None
+                if isinstance(n, ast.Name) and isinstance(n.ctx, ast.Store) and id(n) not in comp:
+                    v = n.id
+                if isinstance(n, ast.Call) and isinstance(n.func, ast.Attribute) and isinstance(n.func.value, ast.Name):
+                    v = n.func.value.id
+                if v is not None and v not in out:
+                    out.append(v)
+        return out
+
+    def isinst(self, e, env):
+        """isinstance(<name>, <Name>) -> (name, class) or None"""
+        if isinstance(e, ast.Call) and isinstance(e.func, ast.Name) and e.func.id == "isinstance" and not e.keywords \
+                and len(e.args) == 2 and isinstance(e.args[0], ast.Name) and isinstance(e.args[1], ast.Name) \
+                and "isinstance" not in env and e.args[1].id not in env:
+            return e.args[0].id, e.args[1].id
+        return None
+
+    def expr(self, e, env):
+        if isinstance(e, ast.Name) and isinstance(e.ctx, ast.Load):
+            if e.id not in env:
+                raise Reject("%s: unknown name %r" % (where(e), e.id))
+            return self.rn(e.id, e), env[e.id]
+        ii = self.isinst(e, env)
+        if ii is not None and ii[1] in CLASSES:
+            if env.get(ii[0]) != NODE:
+                raise Reject("%s: isinstance(.., %s) of a value of kind %r" % (where(e), ii[1], env.get(ii[0])))
+            return "(%s %s)" % (CLASSES[ii[1]], self.rn(ii[0], e)), BOOL
+        if isinstance(e, ast.UnaryOp) and isinstance(e.op, ast.Not):
+            t, k = self.expr(e.operand, env)
+            if k != BOOL:
+                raise Reject("%s: not of kind %r" % (where(e), k))
+            return "(negb %s)" % t, BOOL
+        if isinstance(e, ast.BoolOp):
+            parts = [self.expr(v, env) for v in e.values]
+            if any(k != BOOL for _, k in parts):
+                raise Reject("%s: and / or of non-booleans" % where(e))
+            f = "andb" if isinstance(e.op, ast.And) else "orb"
+            t = parts[-1][0]
+            for q, _ in reversed(parts[:-1]):
+                t = "(%s %s %s)" % (f, q, t)
+            return t, BOOL
+        if isinstance(e, ast.Compare) and len(e.ops) == 1 and isinstance(e.ops[0], ast.Gt) and isinstance(e.comparators[0], ast.Constant) \
+                and type(e.comparators[0].value) is int and e.comparators[0].value >= 0 and isinstance(e.left, ast.Call) \
+                and isinstance(e.left.func, ast.Name) and e.left.func.id == "len" and "len" not in env and len(e.left.args) == 1 \
+                and not e.left.keywords and isinstance(e.left.args[0], ast.Name):
+            t, k = self.expr(e.left.args[0], env)
+            if k != ELIST and k[0] not in ("list", "set") or k[1:] == (None,):
+                raise Reject("%s: len of kind %r" % (where(e), k))
+            return "(%d <? length %s)" % (e.comparators[0].value, t), BOOL
+        if isinstance(e, ast.List) and len(e.elts) == 1 and isinstance(e.elts[0], ast.Name):
+            t, k = self.expr(e.elts[0], env)
+            if k != NODE:
+                raise Reject("%s: list display of kind %r" % (where(e), k))
+            return "[%s]" % t, L(NODE)
+        if isinstance(e, ast.Call) and isinstance(e.func, ast.Name) and e.func.id in ("set", "list") and e.func.id not in env \
+                and not e.keywords and len(e.args) == 1 and isinstance(e.args[0], ast.Name):
+            t, k = self.expr(e.args[0], env)
+            if e.func.id == "set" and k[0] == "list" and k[1] in (NODE, EDGE):
+                return "(py_set %s)" % t, SET(k[1])
+            if e.func.id == "list" and k in (SET(NODE), SET(EDGE)):
+                if k[1] == NODE:
+                    self.tr.sites_n += 1
+                    return "(ord_n %d %s)" % (self.tr.sites_n - 1, t), L(NODE)
+                self.tr.sites_e += 1
+                return "(ord_e %d %s)" % (self.tr.sites_e - 1, t), L(EDGE)
+            raise Reject("%s: %s() of kind %r" % (where(e), e.func.id, k))
+        raise Reject("%s: expression %s is outside the fragment understood in link" % (where(e), ast.unparse(e)))
+
+    def message_ok(self, e, env):
+        if isinstance(e, ast.Constant) and isinstance(e.value, str):
+            return True
+        if isinstance(e, ast.JoinedStr):
+            return all((isinstance(v, ast.Constant) and isinstance(v.value, str)) or
+                       (isinstance(v, ast.FormattedValue) and isinstance(v.value, ast.Name) and v.value.id in env
+                        and v.format_spec is None) for v in e.values)
+        return False
+
+    def block(self, stmts, env, mon, tail):
+        """-> text.  mon: the block is a py4 computation; tail(env) closes a block that falls through"""
+        if not stmts:
+            if tail is None:
+                raise Reject("function link: a path falls off the end of the function")
+            return tail(env)
+        s, rest = stmts[0], stmts[1:]
+        env = dict(env)
+        # _check_all_nodes(a, b)
+        if isinstance(s, ast.Expr) and isinstance(s.value, ast.Call) and isinstance(s.value.func, ast.Name) \
+                and s.value.func.id == "_check_all_nodes":
+            c = s.value
+            if not mon or c.keywords or not c.args or "_check_all_nodes" in env or not all(
+                    isinstance(a, ast.Name) and env.get(a.id) == OPND for a in c.args):
+                raise Reject("%s: _check_all_nodes call shape" % where(s))
+            self.tr.need_check_all_nodes()
+            return "py4_bind (check_all_nodes [%s]) (fun _ =>\n%s)" % ("; ".join(self.rn(a.id, a) for a in c.args),
+                                                                      self.block(rest, env, mon, tail))
+        # v = [] / v = set()
+        if isinstance(s, ast.Assign) and len(s.targets) == 1 and isinstance(s.targets[0], ast.Name):
+            v, val = s.targets[0].id, s.value
+            if isinstance(val, ast.List) and not val.elts:
+                if v in env:
+                    raise Reject("%s: %r is rebound to []" % (where(s), v))
+                env[v] = ELIST
+                return "let %s := ([] : list unit) in\n%s" % (self.rn(v, s), self.block(rest, env, mon, tail))
+            if isinstance(val, ast.Call) and isinstance(val.func, ast.Name) and val.func.id == "set" and not val.args \
+                    and not val.keywords and "set" not in env:
+                if v in env:
+                    raise Reject("%s: %r is rebound to set()" % (where(s), v))
+                env[v] = SET(None)
+                return "let %s := [] in\n%s" % (self.rn(v, s), self.block(rest, env, mon, tail))
+            t, k = self.expr(val, env)
+            if k != L(NODE) or env.get(v) not in (None, NODE, L(NODE)):
+                raise Reject("%s: assignment of kind %r to %r (%r)" % (where(s), k, v, env.get(v)))
+            env[v] = k
+            return "let %s := %s in\n%s" % (self.rn(v, s), t, self.block(rest, env, mon, tail))
+        # a, b = _link_1to1(x, y)
+        if isinstance(s, ast.Assign) and len(s.targets) == 1 and isinstance(s.targets[0], ast.Tuple) \
+                and isinstance(s.value, ast.Call) and isinstance(s.value.func, ast.Name) and s.value.func.id == "_link_1to1":
+            c, tg = s.value, s.targets[0]
+            sig = self.tr.done.get("_link_1to1")
+            if sig is None or not sig["monadic"] or sig["fuel"] or sig["ret"] != T(L(NODE), L(EDGE)) \
+                    or [k for _, k in sig["params"]] != [NODE, NODE]:
+                raise Reject("%s: _link_1to1 has an unexpected translated signature %r" % (where(s), sig))
+            if not mon or c.keywords or len(c.args) != 2 or "_link_1to1" in env or len(tg.elts) != 2 \
+                    or not all(isinstance(x, ast.Name) for x in tg.elts) or tg.elts[0].id == tg.elts[1].id \
+                    or any(x.id in env for x in tg.elts):
+                raise Reject("%s: _link_1to1 call shape" % where(s))
+            args = [self.expr(a, env) for a in c.args]
+            if any(k != NODE or not isinstance(a, ast.Name) for (_, k), a in zip(args, c.args)):
+                raise Reject("%s: _link_1to1 on kinds %r" % (where(s), [k for _, k in args]))
+            env[tg.elts[0].id], env[tg.elts[1].id] = L(NODE), L(EDGE)
+            return "py4_bind (py4_lift (_link_1to1 %s %s)) (fun '(%s, %s) =>\n%s)" % (
+                args[0][0], args[1][0], self.rn(tg.elts[0].id, s), self.rn(tg.elts[1].id, s), self.block(rest, env, mon, tail))
+        # v |= set(l)
+        if isinstance(s, ast.AugAssign) and isinstance(s.op, ast.BitOr) and isinstance(s.target, ast.Name):
+            v = s.target.id
+            t, k = self.expr(s.value, env)
+            kv = env.get(v)
+            if kv is None or kv[0] != "set" or k[0] != "set" or k[1] is None or kv[1] not in (None, k[1]):
+                raise Reject("%s: `|=` of a %r into %r of kind %r" % (where(s), k, v, kv))
+            env[v] = k
+            return "let %s := set_union %s %s in\n%s" % (self.rn(v, s), self.rn(v, s), t, self.block(rest, env, mon, tail))
+        # v += [<x.name | x> for x in l if c]        (v an erased list)
+        if isinstance(s, ast.AugAssign) and isinstance(s.op, ast.Add) and isinstance(s.target, ast.Name) \
+                and env.get(s.target.id) == ELIST and isinstance(s.value, ast.ListComp):
+            lc, v = s.value, self.rn(s.target.id, s)
+            if len(lc.generators) != 1 or lc.generators[0].is_async or len(lc.generators[0].ifs) > 1 \
+                    or not isinstance(lc.generators[0].target, ast.Name) or not isinstance(lc.generators[0].iter, ast.Name):
+                raise Reject("%s: comprehension shape" % where(s))
+            gen = lc.generators[0]
+            it, ki = self.expr(gen.iter, env)
+            x = gen.target.id
+            if ki != L(NODE) or x in env:
+                raise Reject("%s: comprehension over kind %r / loop variable %r rebound" % (where(s), ki, x))
+            env2 = dict(env)
+            env2[x] = NODE
+            el = lc.elt
+            if not ((isinstance(el, ast.Name) and el.id == x) or (isinstance(el, ast.Attribute) and el.attr == "name"
+                    and isinstance(el.value, ast.Name) and el.value.id == x)):
+                raise Reject("%s: element of an erased list must be <loop variable> or <loop variable>.name" % where(s))
+            src = it
+            if gen.ifs:
+                c, kc = self.expr(gen.ifs[0], env2)
+                if kc != BOOL:
+                    raise Reject("%s: comprehension condition" % where(s))
+                src = "(filter (fun %s => %s) %s)" % (self.rn(x, s), c, it)
+            return "let %s := (%s ++ map (fun %s => tt) %s) in\n%s" % (v, v, self.rn(x, s), src, self.block(rest, env, mon, tail))
+        # v.append(x)     (v an erased list)
+        if isinstance(s, ast.Expr) and isinstance(s.value, ast.Call) and isinstance(s.value.func, ast.Attribute) \
+                and s.value.func.attr == "append" and isinstance(s.value.func.value, ast.Name):
+            c, v = s.value, s.value.func.value.id
+            if env.get(v) != ELIST or c.keywords or len(c.args) != 1 or not isinstance(c.args[0], ast.Name) \
+                    or env.get(c.args[0].id) != NODE:
+                raise Reject("%s: .append shape" % where(s))
+            return "let %s := (%s ++ [tt]) in\n%s" % (self.rn(v, s), self.rn(v, s), self.block(rest, env, mon, tail))
+        if isinstance(s, ast.If):
+            test, neg = s.test, False
+            if isinstance(test, ast.UnaryOp) and isinstance(test.op, ast.Not):
+                test, neg = test.operand, True
+            ii = self.isinst(test, env)
+            # if c: raise TypeError(..)
+            if len(s.body) == 1 and isinstance(s.body[0], ast.Raise) and not s.orelse:
+                r = s.body[0]
+                ex = r.exc
+                if not mon or not (isinstance(ex, ast.Call) and isinstance(ex.func, ast.Name) and ex.func.id == "TypeError"
+                                   and "TypeError" not in env and not ex.keywords and len(ex.args) == 1
+                                   and self.message_ok(ex.args[0], env)) or r.cause is not None:
+                    raise Reject("%s: raise shape" % where(r))
+                c, kc = self.expr(s.test, env)
+                if kc != BOOL:
+                    raise Reject("%s: condition of kind %r" % (where(s), kc))
+                return "if %s then Exc4 TypeError else\n%s" % (c, self.block(rest, env, mon, tail))
+            vs = [v for v in self.assigned(s.body + s.orelse)]
+            if not vs or any(v not in env for v in vs):
+                raise Reject("%s: an if must update variables bound before it (%r)" % (where(s), vs))
+            for n in ast.walk(s):
+                if n is not s and isinstance(n, (ast.Raise, ast.Return, ast.For, ast.While, ast.Try, ast.With)) or (
+                        isinstance(n, ast.Call) and isinstance(n.func, ast.Name) and n.func.id in ("_link_1to1", "_check_all_nodes")):
+                    raise Reject("%s: only variable updates are understood inside this if" % where(n))
+            ends = []
+            def btail(e2):
+                ends.append({v: e2.get(v) for v in vs})
+                return self.tup(vs)
+            if ii is not None and ii[1] == "Sequence" and "Sequence" not in env:
+                p = ii[0]
+                if env.get(p) != OPND:
+                    raise Reject("%s: isinstance(%s, Sequence) on kind %r" % (where(s), p, env.get(p)))
+                ea, eb = dict(env), dict(env)
+                ea[p], eb[p] = L(NODE), NODE
+                sa, sb = (s.orelse, s.body) if neg else (s.body, s.orelse)
+                a = self.block(sa, ea, False, btail)
+                b = self.block(sb, eb, False, btail)
+                t = "match %s with\n| OSeq %s =>\n%s\n| ONode %s =>\n%s\nend" % (self.rn(p, s), self.rn(p, s), a, self.rn(p, s), b)
+            else:
+                c, kc = self.expr(s.test, env)
+                if kc != BOOL:
+                    raise Reject("%s: condition of kind %r" % (where(s), kc))
+                a = self.block(s.body, dict(env), False, btail)
+                b = self.block(s.orelse, dict(env), False, btail)
+                t = "(if %s then\n%s\nelse\n%s)" % (c, a, b)
+            if len(ends) != 2 or ends[0] != ends[1] or any(k is None or k == SET(None) for k in ends[0].values()):
+                raise Reject("%s: the branches leave different kinds: %r" % (where(s), ends))
+            env.update(ends[0])
+            return "let %s := %s in\n%s" % (self.pat(vs), t, self.block(rest, env, mon, tail))
+        if isinstance(s, ast.For):
+            if not mon or s.orelse or not isinstance(s.target, ast.Name) or not isinstance(s.iter, ast.Name) or s.target.id in env:
+                raise Reject("%s: for shape" % where(s))
+            it, ki = self.expr(s.iter, env)
+            if ki != L(NODE):
+                raise Reject("%s: for over kind %r" % (where(s), ki))
+            for n in ast.walk(s):
+                if isinstance(n, (ast.Return, ast.Break, ast.Continue, ast.While)):
+                    raise Reject("%s: return / break / continue inside a loop" % where(n))
+            vs = [v for v in self.assigned(s.body) if v in env]
+            if not vs or s.iter.id in vs:
+                raise Reject("%s: loop without effect / the iterated list is updated" % where(s))
+            env2 = dict(env)
+            env2[s.target.id] = NODE
+            ends = []
+            def ltail(e2):
+                ends.append({v: e2.get(v) for v in vs})
+                return "Val4 " + self.tup(vs)
+            # a set still of unknown element kind is fixed by the body: translate twice when the kinds were refined
+            body = self.block(s.body, env2, True, ltail)
+            if ends[-1] != {v: env.get(v) for v in vs}:
+                for v in vs:
+                    if env[v] != ends[-1][v] and env[v] != SET(None):
+                        raise Reject("%s: %r changes kind inside the loop" % (where(s), v))
+                    env[v] = ends[-1][v]
+                return self.block(stmts, env, mon, tail)
+            env3 = dict(env)
+            return "py4_bind (py4_for %s (fun %s %s =>\n%s) %s) (fun %s =>\n%s)" % (
+                it, self.pat(vs), self.rn(s.target.id, s), body, self.tup(vs), self.pat(vs), self.block(rest, env3, mon, tail))
+        # return Model(nodes=list(s), edges=list(t), name=name)
+        if isinstance(s, ast.Return) and isinstance(s.value, ast.Call) and isinstance(s.value.func, ast.Name) and s.value.func.id == "Model":
+            c = s.value
+            if rest or not mon or tail is not None or "Model" in env or c.args or [k.arg for k in c.keywords] != ["nodes", "edges", "name"]:
+                raise Reject("%s: Model(...) is understood only as the final `return Model(nodes=.., edges=.., name=name)`" % where(s))
+            nv = c.keywords[2].value
+            if not isinstance(nv, ast.Name) or nv.id != "name" or env.get("name") != NAME:
+                raise Reject("%s: Model(..., name=<not the parameter name>)" % where(s))
+            a, ka = self.expr(c.keywords[0].value, env)
+            b, kb = self.expr(c.keywords[1].value, env)
+            if (ka, kb) != (L(NODE), L(EDGE)):
+                raise Reject("%s: Model(nodes=, edges=) of kinds %r, %r" % (where(s), ka, kb))
+            return "Val4 (MNew %s %s)" % (a, b)
+        raise Reject("%s: statement %s is outside the fragment understood in link" % (where(s), type(s).__name__))
+
+
 def callee_signatures(repo):
     """signature of find_parents_and_children as py2coq_graph translates it from the graphflow.py of the same tree"""
     gt = g.Translator(open(os.path.join(repo, g.SOURCE)).read())
@@ -568,9 +929,12 @@ def emit(repo):
         t, seg = tr.function(name, params)
         defs.append(t)
         segs.append(seg)
+    t, seg = tr.link_function()
+    defs.append(t)
+    segs.append(seg)
     sha = hashlib.sha256("\n".join(segs).encode()).hexdigest()
     out = ["(* GENERATED by tools/vlib/py2coq_ops.py (%s, on top of %s) from the current source of %s -- DO NOT EDIT." % (VERSION, g.VERSION, SOURCE),
-           "   functions: %s;  sha256 of their source texts: %s" % (", ".join(n for n, _ in FUNCS), sha),
+           "   functions: %s;  sha256 of their source texts: %s" % (", ".join([n for n, _ in FUNCS] + ["link (+ _check_all_nodes, pinned)"]), sha),
            "   callee find_parents_and_children: gen/Gen_graphflow.v (sha256 of the graphflow sources: %s)" % gsha,
            "   Regenerated by `./check C03` (pregen).  Vocabulary: base/PyColl.v.",
            "   ord_n k / ord_e k : the order in which Python iterates over a set at conversion site k (%d node sites, %d edge" % (tr.sites_n, tr.sites_e),
@@ -579,7 +943,9 @@ def emit(repo):
            "   is_model / is_frozen_model x : isinstance(x, Model / FrozenModel); attr_* x, is_initialized x, output_dim / input_dim x :",
            "   the attribute reads x.nodes, x.edges, x.input_nodes, x.output_nodes, ...; dim_eqb : `==` on dimensions;",
            "   is_node x : isinstance(x, _Node); merge: vocabulary base/PyColl4.v (py4, operand, MNew = `Model(nodes=, edges=, name=)`,",
-           "   MUpdate = `.update_graph(,)`, neither call translated). *)",
+           "   MUpdate = `.update_graph(,)`, neither call translated);  link: node1 / node2 are operands (`isinstance(x, Sequence)` /",
+           "   `Iterable` = OSeq), check_all_nodes = `_check_all_nodes` (pinned by its exact text), py4_lift = the call of the generated",
+           "   _link_1to1 from a py4 function, `frozens` erased to a list unit (only its length is used). *)",
            "From Coq Require Import List Bool Arith.",
            "From RV Require Import base.PyColl base.PyColl4 gen.Gen_graphflow.",
            "Import ListNotations.", "",
